@@ -450,33 +450,34 @@ def reYear (s : List Char) : Option Match :=
 
 /-- `_RE_ISO_DM`: `--MMDD`, `--MM-DD` -/
 def reIsoDM : List Char → Option Match
-  | '-' :: '-' :: r =>
-    match take2digits r with
-    | some (mo, '-' :: r') =>
-      (match take2digits r' with
-       | some (d, _) => some ⟨7, [mo, d]⟩
-       | none => none)
-    | some (mo, r') =>
-      (match take2digits r' with
-       | some (d, _) => some ⟨6, [mo, d]⟩
-       | none => none)
-    | none => none
+  | a :: b :: r =>
+    if a == '-' && b == '-' then
+      match take2digits r with
+      | some (mo, r') =>
+        let dashed := match r' with | c :: _ => c == '-' | [] => false
+        match take2digits (if dashed then r'.drop 1 else r') with
+        | some (d, _) => some ⟨if dashed then 7 else 6, [mo, d]⟩
+        | none => none
+      | none => none
+    else none
   | _ => none
+
+/-- is the next character a period (the optional `\.?`) -/
+def periodNext : List Char → Bool
+  | c :: _ => c == '.'
+  | [] => false
 
 /-- `_RE_MONTH`: three or more letters, an optional period -/
 def reMonth (s : List Char) : Option Match :=
   let name := s.takeWhile isAlpha
   if name.length ≥ 3 then
-    match s.dropWhile isAlpha with
-    | '.' :: _ => some ⟨name.length + 1, [name]⟩
-    | _ => some ⟨name.length, [name]⟩
+    some ⟨if periodNext (s.dropWhile isAlpha) then name.length + 1 else name.length, [name]⟩
   else none
 
 /-- `_RE_DAY`: one or two digits, an optional period -/
 def reDay (s : List Char) : Option Match :=
   match digits12 s with
-  | some (d, '.' :: _) => some ⟨d.length + 1, [d]⟩
-  | some (d, _) => some ⟨d.length, [d]⟩
+  | some (d, r) => some ⟨if periodNext r then d.length + 1 else d.length, [d]⟩
   | none => none
 
 /-- index of the first month whose name starts with the capitalised `name` (`_name_to_month`) -/
@@ -551,20 +552,19 @@ inductive Iso where
 def isoDateTimeRaw (s : List Char) : Iso :=
   if s.length < 7 then .fail else
   let weekForm := match s.drop 4 with
-    | 'W' :: _ => true
-    | '-' :: 'W' :: _ => true
-    | _ => false
+    | c :: rest => c == 'W' || (c == '-' && (match rest with | d :: _ => d == 'W' | [] => false))
+    | [] => false
   if weekForm then .week else
   match take4digits s with
   | none => .fail
   | some (y, r) =>
-    let dashed := match r with | '-' :: _ => true | _ => false
+    let dashed := match r with | c :: _ => c == '-' | [] => false
     let r := if dashed then r.drop 1 else r
     match take2digits r with
     | none => .fail
     | some (mo, r) =>
       let r? : Option (List Char) :=
-        if dashed then (match r with | '-' :: r' => some r' | _ => none) else some r
+        if dashed then (match r with | c :: r' => if c == '-' then some r' else none | [] => none) else some r
       match r? with
       | none => .fail
       | some r =>
